@@ -20,9 +20,12 @@ RULE = ("streams: shapes = every CSV table with header width 0..3, 0..2 data row
         "line feeds in quoted cells, non-ASCII, the empty string (CSV) and the words None/name/position; dup = repeated headings "
         "(outside the property's domain, model fidelity only); perm = the same table with a random column permutation "
         "(rows at least as long as the header); ext = metadata sheets of 0-6 (name, description, type) rows of 1-4 cells "
-        "+ ragged data, incl. a few sheets with a blank line or a repeated name (outside the domain: not judged). CSV for all, XLSX for a sample (quick) / for as many again (thorough). "
-        "Non-trivial = at least one data row delivered (branch not in 0/20/40); distinct = distinct case lines.")
-TRIVIAL_BRANCHES = [0, 20, 40]
+        "+ ragged data; bind = sequences of 1-4 set_schema / set_schema_loader calls (heading-row loader, do-nothing loader, schemas that are "
+        "hand-written without positions, hand-written with positions or loaded externally, each over its own distinct names) on ONE Sheet "
+        "object before rows(), every listed pattern (loader then schema, schema then loader, loader-schema-loader, schema twice, ...) on a fixed table "
+        "plus random sequences on random tables; ext also incl. a few sheets with a blank line or a repeated name (outside the domain: not judged). CSV for all, XLSX for a sample (quick) / for as many again (thorough). "
+        "Non-trivial = at least one data row delivered (branch not in 0/20/40/80); distinct = distinct case lines.")
+TRIVIAL_BRANCHES = [0, 20, 40, 80]
 ASSUMPTIONS = [
     "csv.writer then csv.reader (file opened in text mode, universal newlines) returns the written rows for cells without CR; "
     "a row of no cells is written as an empty line and read back as []",
@@ -76,6 +79,18 @@ def _table(rng, fmt):
     return [_headings(rng, fmt, n)] + _ragged_rows(rng, fmt, n, rng.randint(0, 8))
 
 
+def _ops(rng, fmt, pattern, kind):
+    """L = set_schema_loader(HeadingRowSchemaLoader()), N = set_schema_loader(SchemaLoader()),
+    S = set_schema(schema over fresh distinct names; kind 0 hand-written, 1 with positions, 2 loaded externally)"""
+    ops = []
+    for ch in pattern:
+        if ch == "S":
+            ops.append(["schema", rng.randint(0, 2) if kind is None else kind, _headings(rng, fmt, rng.randint(1, 5))])
+        else:
+            ops.append(["loader", 1 if ch == "L" else 0])
+    return ops
+
+
 def inputs(ctx):
     rng = ctx.rng
     quick = ctx.tier == "quick"
@@ -93,11 +108,20 @@ def inputs(ctx):
         yield "shapes", {"stream": "header", "fmt": fmt, "table": [["only", "a header"]]}
         yield "shapes", {"stream": "perm", "fmt": fmt, "table": [["a", "b"]], "perm": [1, 0]}
         yield "shapes", {"stream": "ext", "fmt": fmt, "meta": [], "data": [["1", "2"]]}
-    # --- random tables
-    budget = {"csv": (400, 60, 300, 250), "xlsx": (60, 10, 40, 40)} if quick else \
-             {"csv": (6000, 600, 5000, 4000), "xlsx": (5000, 400, 3000, 2500)}
+    # --- binding calls on one Sheet object: every pattern below on a fixed table, both formats
+    patterns = ["S", "L", "LS", "SL", "LSL", "SS", "NS", "SN", "LNS", "LSN", "SLS", "LLS", "SLN", "LSS", "NLS", "SSL"]
+    ctx.exhaustive.append("binding_patterns_" + "_".join(patterns))
     for fmt in ("csv", "xlsx"):
-        n_header, n_dup, n_perm, n_ext = budget[fmt]
+        for pat in patterns:
+            for kind in (0, 1, 2):
+                yield "bind", {"stream": "bind", "fmt": fmt,
+                               "table": [["part", "Unit Cost", "qty"], ["P-100", "1.50", "3"], ["P-200", "2.75"], ["P-300", "4.00", "5", "x"]][:3 if fmt == "xlsx" else 4],
+                               "ops": _ops(rng, fmt, pat, kind)}
+    # --- random tables
+    budget = {"csv": (400, 60, 300, 250, 300), "xlsx": (60, 10, 40, 40, 40)} if quick else \
+             {"csv": (6000, 600, 5000, 4000, 5000), "xlsx": (5000, 400, 3000, 2500, 2500)}
+    for fmt in ("csv", "xlsx"):
+        n_header, n_dup, n_perm, n_ext, n_bind = budget[fmt]
         for _ in range(n_header):
             yield "header", {"stream": "header", "fmt": fmt, "table": _table(rng, fmt)}
         for _ in range(n_dup):
@@ -127,6 +151,14 @@ def inputs(ctx):
                 meta.insert(rng.randint(0, len(meta)), [])            # a blank line (outside the domain)
             data = _ragged_rows(rng, fmt, max(n, 1), rng.randint(0, 6))
             yield "ext", {"stream": "ext", "fmt": fmt, "meta": meta, "data": data}
+
+        for _ in range(n_bind):
+            while True:
+                pat = "".join(rng.choice("LNSS") for _ in range(rng.randint(1, 4)))
+                if "S" in pat or pat.endswith("L"):          # some schema is bound when rows() runs
+                    break
+            yield "bind", {"stream": "bind", "fmt": fmt, "table": _table(rng, fmt) if rng.random() < 0.9 else [],
+                           "ops": _ops(rng, fmt, pat, None)}
 
 
 # ---------------------------------------------------------------- writing
@@ -213,6 +245,57 @@ def _read_with_schema(fmt, path, make_schema, probes):
         wb.close()
 
 
+def _external_schema(fmt, folder, stem, names):
+    """load a schema from a (name, description, type) sheet by the documented protocol"""
+    from stingray.workbook import ExternalSchemaLoader
+    from stingray.schema_instance import SchemaMaker
+    mpath = _write(fmt, folder, stem, [[n, "d", "string"] for n in names])
+    wb, name = _open(fmt, mpath)
+    try:
+        msheet = wb.sheet(name)
+        msheet.set_schema(SchemaMaker().from_json(ExternalSchemaLoader.META_SCHEMA))
+        return SchemaMaker().from_json(ExternalSchemaLoader(msheet).load())
+    finally:
+        wb.close()
+
+
+def _observe_bind(fmt, f, folder, inp, W):
+    """the binding calls of inp['ops'] on ONE Sheet object, then rows()"""
+    from stingray.workbook import HeadingRowSchemaLoader, SchemaLoader
+    from stingray.schema_instance import SchemaMaker
+    table, ops = inp["table"], inp["ops"]
+    probes = list(table[0]) if table else []
+    wire_ops = []
+    for op in ops:
+        if op[0] == "schema":
+            probes += op[2]
+            wire_ops.append([1, op[1], [S(n) for n in op[2]]])
+        else:
+            wire_ops.append([0, op[1]])
+    path = _write(fmt, folder, "t", table)
+    wb, name = _open(fmt, path)
+    try:
+        sheet = wb.sheet(name)
+
+        def bind_and_read():
+            for i, op in enumerate(ops):
+                if op[0] == "loader":
+                    sheet.set_schema_loader(HeadingRowSchemaLoader() if op[1] == 1 else SchemaLoader())
+                elif op[1] == 2:
+                    sheet.set_schema(_external_schema(fmt, folder, f"meta{i}", op[2]))
+                else:
+                    props = {n: ({"type": "string", "position": j} if op[1] == 1 else {"type": "string"})
+                             for j, n in enumerate(op[2])}
+                    sheet.set_schema(SchemaMaker().from_json({"type": "object", "properties": props}))
+            return _read(sheet, probes)
+
+        got = observe_call(bind_and_read, lambda r: r)
+        obs = got[1] if got[0] == 0 else got
+    finally:
+        wb.close()
+    return [3, f, W(table), wire_ops, [S(k) for k in probes], obs]
+
+
 def observe(ctx, inp):
     logging.disable(logging.CRITICAL)           # WBNav.name logs every missing cell
     fmt = inp["fmt"]
@@ -229,6 +312,8 @@ def observe(ctx, inp):
             probes, obs = _read_header(fmt, folder, "t", t)
             probes2, obs2 = _read_header(fmt, folder, "t2", t2)
             return [1, f, W(t), pi, W(t2), probes, obs, probes2, obs2]
+        if inp["stream"] == "bind":
+            return _observe_bind(fmt, f, folder, inp, W)
         # external schema, by the documented protocol
         from stingray.workbook import ExternalSchemaLoader
         from stingray.schema_instance import SchemaMaker
@@ -262,4 +347,8 @@ def observe(ctx, inp):
 def describe(inp):
     if inp["stream"] == "ext":
         return f"ext {inp['fmt']} meta={inp['meta']!r} data={inp['data']!r}"
+    if inp["stream"] == "bind":
+        calls = " then ".join(("set_schema_loader(" + ("HeadingRowSchemaLoader()" if o[1] else "SchemaLoader()") + ")") if o[0] == "loader"
+                              else f"set_schema({['hand-written', 'hand-written+positions', 'external'][o[1]]} {o[2]!r})" for o in inp["ops"])
+        return f"bind {inp['fmt']} one Sheet: {calls} then rows(); table={inp['table']!r}"
     return f"{inp['stream']} {inp['fmt']} table={inp['table']!r}" + (f" perm={inp['perm']}" if "perm" in inp else "")
